@@ -309,6 +309,7 @@ type world struct {
 	glitch   bool        // a callback started long after its element was both polled and due
 	marks    []time.Time // when callbacks returned and when operations of the harness were done
 	qptr     uintptr
+	hist     map[string]int // coverage counters of the attempt (caseResult.hist)
 }
 
 func (w *world) fail(oracle, detail string, sig map[string]string) {
@@ -766,6 +767,30 @@ func (w *world) exec(f []string, now int) string {
 		w.sd = append(w.sd, c)
 		if !w.isSD {
 			w.isSD = true
+			// what the generated histories reach (flag table x where the pending elements are): elements a poller
+			// holds (popped, callback not started) and elements in the heap at the first Shutdown, per c/i flag set
+			held, queued := 0, 0
+			for _, t := range w.tasks {
+				if t.scheduled && !t.started && !t.cancelTrue && !t.replaced && !t.ecancelled {
+					if w.maybePopped(t) && t.after == 0 {
+						held++
+					} else {
+						queued++
+					}
+				}
+			}
+			ci := ""
+			for _, c := range "ci" {
+				if strings.ContainsRune(fl, c) {
+					ci += string(c)
+				}
+			}
+			if ci == "" {
+				ci = "-"
+			}
+			if w.hist != nil {
+				w.hist[fmt.Sprintf("at-shutdown:%s:held=%d%s:heap=%d%s", ci, min(held, 2), map[bool]string{true: "+"}[held >= 2], min(queued, 1), map[bool]string{true: "+"}[queued >= 1])]++
+			}
 			if strings.Contains(fl, "i") {
 				w.ignore, w.ignAt = true, time.Now()
 			}
@@ -818,7 +843,7 @@ type caseResult struct {
 // runOnce executes the op lines with the given unit; valid=false if the timing of the harness itself was off.
 func runOnce(lines []string, unit time.Duration) (res caseResult) {
 	res.lines, res.unit, res.hist = lines, unit, map[string]int{}
-	w := &world{unit: unit, tasks: map[int]*task{}, idReg: map[int]*task{}, rel: map[int]chan struct{}{}, armTags: map[int]bool{}}
+	w := &world{unit: unit, tasks: map[int]*task{}, idReg: map[int]*task{}, rel: map[int]chan struct{}{}, armTags: map[int]bool{}, hist: res.hist}
 	stop := make(chan struct{})
 	var maxOver atomic.Int64
 	// disturbed is closed as soon as the attempt is known to be timing-invalid for a reason that has nothing to do with
@@ -1266,6 +1291,9 @@ func runCaseLines(lines []string, unit time.Duration) caseResult {
 		}
 		res.pureCnt = pure
 		for k, v := range res.hist {
+			if strings.HasPrefix(k, "at-shutdown:") && !res.valid {
+				continue // coverage counters describe the attempt that counts
+			}
 			hist[k] += v
 		}
 		res.hist = hist
@@ -1959,7 +1987,10 @@ func runCbShutdown(r *rec, sub uint64, fl string, workers int, wait bool, reps i
 			mu.Lock()
 			defer mu.Unlock()
 			for _, t := range ts {
-				if t.runs == 0 && !t.cancelTrue && !(strings.Contains(fl, "c") && t.id > 2) {
+				// with CancelPendingElements everything that had not started when the callback called Shutdown may be
+				// dropped - also the first task, if the machine stood still for the 2 ms between the two due times and
+				// its poller then found the context cancelled together with its timer (seen in the thorough tier)
+				if t.runs == 0 && !t.cancelTrue && !strings.Contains(fl, "c") {
 					missing++
 				}
 			}
@@ -2161,7 +2192,7 @@ func runAddBurst(r *rec, sub uint64, workers, k int, sameDue bool, reps int) {
 				}
 			}, t.due)
 		}
-		deadline := time.Now().Add(time.Second)
+		deadline := time.Now().Add(3 * time.Second) // an Add that wakes nobody is never made up for; seconds are for the busy machine
 		for time.Now().Before(deadline) {
 			all := true
 			for _, t := range ts {
@@ -2277,21 +2308,21 @@ func runSdRace(r *rec, sub uint64, workers, adders, reps int) {
 		hung := false
 		select {
 		case <-done:
-		case <-time.After(3 * time.Second):
+		case <-time.After(30 * time.Second): // a -race build next to two other stress parts on a busy machine needs seconds; a hang never returns
 			hung = true
-			fails = append(fails, finding{"shutdown-returns", "sdrace: Executor.Shutdown() did not return", map[string]string{"oracle": "shutdown-hang", "mode": "sdrace"}, true})
+			fails = append(fails, finding{"shutdown-returns", "sdrace: Executor.Shutdown() did not return within 30s", map[string]string{"oracle": "shutdown-hang", "mode": "sdrace"}, true})
 		}
 		close(stop)
-		if !waitWG(&wg, 5*time.Second) {
+		if !waitWG(&wg, 30*time.Second) {
 			// the adders / cancellers are stuck inside ExecuteAt / Cancel: a lock cycle between Shutdown and Add
-			fails = append(fails, finding{"hang", fmt.Sprintf("sdrace: %d workers, %d adders calling ExecuteAt while Shutdown() is called (round %d): ExecuteAt / Cancel did not return within 5s (Shutdown returned: %v)", workers, adders, rep, !hung),
+			fails = append(fails, finding{"hang", fmt.Sprintf("sdrace: %d workers, %d adders calling ExecuteAt while Shutdown() is called (round %d): ExecuteAt / Cancel did not return within 30s (Shutdown returned: %v)", workers, adders, rep, !hung),
 				map[string]string{"oracle": "hang", "mode": "sdrace"}, true})
 
 			break
 		}
 		// Shutdown() returned: the workers left after the queue was empty; whatever was accepted has been run,
 		// except for callbacks still in flight - give those a moment
-		for i := 0; i < 200 && !hung && ran.Load() < acc.Load(); i++ {
+		for i := 0; i < 2000 && !hung && ran.Load() < acc.Load(); i++ {
 			time.Sleep(time.Millisecond)
 		}
 		accepted += int(acc.Load())
@@ -2741,13 +2772,14 @@ func runQSess(r *rec, sub uint64, producers, consumers, m int, fl string, reps i
 			}
 		}
 		first := len(items) - producers*perProducer
+		mine := items // the producers' view: addFar appends to items while they run
 		imu.Unlock()
 		for p := 0; p < producers; p++ {
 			pwg.Add(1)
 			go func(p int, lr *hx.Rng) {
 				defer pwg.Done()
 				for k := 0; k < perProducer; k++ {
-					it := items[first+p*perProducer+k]
+					it := mine[first+p*perProducer+k]
 					it.due = base.Add(time.Duration(2+lr.Intn(14)) * grid)
 					switch lr.Intn(15) {
 					case 0:
@@ -3118,7 +3150,7 @@ func main() {
 	}
 	r := hx.Start()
 	r.Rule = "histories of ExecuteAt (tracked and raw) / Cancel(id) / element Cancel / Shutdown(flag subsets) / release / hook-arm with arbitrary relative times, " +
-		"workers 1..3, max size 0..3, callbacks plain|blocking|re-scheduling own id|cancelling own id; non-trivial = at least two tasks ran; distinct by sha256 of the op lines; " +
+		"workers 1..3, max size 0..3 and negative (no bound), due instants also as differently represented equal time.Time values, callbacks plain|blocking|re-scheduling own id|cancelling own id; non-trivial = at least two tasks ran; distinct by sha256 of the op lines; " +
 		"stress runs count as one non-trivial case each; cases run in child processes, a crash of the code under test is an oracle failure of the case that was running"
 	unit := 24 * time.Millisecond
 	if u := os.Getenv("C18_UNIT_MS"); u != "" {
@@ -3196,7 +3228,7 @@ func main() {
 		stress("addburst %d %d %v %d", cfg[0], cfg[1], cfg[2] == 1, 6*r.Scale)
 	}
 	for _, cfg := range [][2]int{{4, 4}, {1, 4}, {2, 8}} {
-		reps := 400 * r.Scale
+		reps := 400 * min(r.Scale, 10) // thorough: 4 000 rounds per configuration (-race build: ~4 min each, three at a time)
 		if v, err := strconv.Atoi(os.Getenv("C18_SDRACE_REPS")); err == nil {
 			reps = v
 		}
@@ -3326,6 +3358,8 @@ func main() {
 	}
 	var pmu sync.Mutex
 	var swg sync.WaitGroup
+	nextStress := 0
+	earlyOff.Store(true) // from here on every finding goes through hx right away
 	sem := make(chan struct{}, stressPar)
 	for i := range stressJobs {
 		swg.Add(1)
@@ -3335,16 +3369,20 @@ func main() {
 			defer func() { <-sem }()
 			t1 := time.Now()
 			own := seq + 100*(i+1) // file names of this part's children
-			stressRes[i] = runChunk(r.OutDir, &own, []job{stressJobs[i]}, 1, unit)[0]
+			res := runChunk(r.OutDir, &own, []job{stressJobs[i]}, 1, unit)[0]
 			pmu.Lock()
+			stressRes[i] = res
 			phase[strings.Fields(stressJobs[i].Desc)[0]] += float64(time.Since(t1).Milliseconds()) / 1000
+			// results go out in the order of the list, each as soon as all before it are there (findings reach hx, and
+			// its stream of first findings, without waiting for the slowest part)
+			for nextStress < len(stressJobs) && stressRes[nextStress] != nil {
+				deliver(stressJobs[nextStress], stressRes[nextStress])
+				nextStress++
+			}
 			pmu.Unlock()
 		}(i)
 	}
 	swg.Wait()
-	for i, j := range stressJobs {
-		deliver(j, stressRes[i])
-	}
 	phase["stress-parts-wall"] = float64(time.Since(t2).Milliseconds()) / 1000
 	r.Extra["phase_wall_s"] = phase
 	r.Finish()
